@@ -11,10 +11,10 @@
      readWhitespace1, ReadAlternative, ReadString ([Win]).
    That the blanks AFTER `open`, `close`, `price` are not empty needs that a newline is not
    alphanumeric ([class_ok]); everything else holds for every classification.               *)
-From Coq Require Import ZArith List Bool Lia ZifyBool.
+From Coq Require Import String ZArith List Bool Lia ZifyBool.
 From Knut Require Import Model.Bytes Model.Utf8 Model.Scanner Model.Parser Spec.SyntaxSpec Spec.FormatSpec
   Spec.LeafSpec Proofs.ScannerProofs Proofs.ParserProofs Proofs.RoundTripBase Proofs.RoundTripLeaf
-  Proofs.RoundTripInv Proofs.LeafProofs.
+  Proofs.RoundTripInv Proofs.LeafProofs Model.UnicodeTables Proofs.RoundTripTop.
 Import ListNotations.
 Open Scope bool_scope.
 Open Scope Z_scope.
@@ -575,4 +575,34 @@ Proof.
   intros Hcls Hp. set (E := mk_env Utf8M.decode letter digit t).
   assert (Hfuel : (length (e_text E) < e_fuel E)%nat) by (cbn [E mk_env e_text e_fuel]; lia).
   exact (parse_env_keywords E eq_refl Hfuel utf8_decoder_ok utf8_decoder_local Hcls f Hp).
+Qed.
+
+(* without [class_ok] the blanks after a keyword may be missing: a classification that calls the
+   newline a letter makes the account of `open` start with the newline *)
+Definition nl_letter (c : Z) : bool := (c =? 10) || ((65 <=? c) && (c <=? 90)).
+Definition nl_digit (c : Z) : bool := (48 <=? c) && (c <=? 57).
+Definition nl_text : str := Eval vm_compute in
+  runes_of_string "2020-01-01 open
+A"%string.
+
+Theorem keywords_unrestricted_refuted :
+  exists letter digit t f, parse_text letter digit t = ParseOk f /\ wf_keywords_b t f = false.
+Proof.
+  exists nl_letter, nl_digit, nl_text. eexists. split; [vm_compute; reflexivity|]. vm_compute. reflexivity.
+Qed.
+
+(* everything that is proved of a tree, for the tables of the Go toolchain *)
+Theorem parse_text_total_unicode t :
+  match parse_text is_letter is_digit t with
+  | ParseOk f => wf_tree_b t f = true /\ cover_b t f = true /\ interleave t f = t /\
+                 wf_leaves_b is_letter is_digit t f = true /\ wf_keywords_b t f = true
+  | ParseErr e => err_in_bounds_b t e = true
+  | ParseFuel => False
+  end.
+Proof.
+  pose proof (parse_text_total is_letter is_digit t) as H.
+  destruct (parse_text is_letter is_digit t) as [f|e|] eqn:Hp; [|exact H|exact H].
+  destruct H as (H1 & H2 & H3). repeat split; try assumption.
+  - now apply parse_text_leaves.
+  - exact (parse_text_keywords is_letter is_digit t f unicode_class_ok Hp).
 Qed.
